@@ -457,6 +457,44 @@ func main() {
 				both(s, s.analyse(fmt.Sprintf("other-counter=%d", i), d), 1)
 			}
 		}
+		// forged frames: the adversary writes frames of its own (any length field, arbitrary bytes for ciphertext and
+		// tag) between the peer's frames, or in place of one
+		if k <= 6 {
+			for i := 0; i <= k; i++ {
+				for _, fl := range []int{0, 1, 16, 17, 1024} {
+					forged := make([]byte, 2+fl+16)
+					rnd.Read(forged)
+					binary.LittleEndian.PutUint16(forged, uint16(fl))
+					if fl == 0 && i%2 == 1 {
+						for x := 2; x < len(forged); x++ {
+							forged[x] = 0
+						}
+					}
+					var d []byte
+					for x, f := range s.frames {
+						if x == i {
+							d = append(d, forged...)
+						}
+						d = append(d, f...)
+					}
+					if i == k {
+						d = append(d, forged...)
+					}
+					both(s, s.analyse(fmt.Sprintf("insert-forged-frame-len%d@%d", fl, i), d), 1)
+					if i < k {
+						d = nil
+						for x, f := range s.frames {
+							if x == i {
+								d = append(d, forged...)
+							} else {
+								d = append(d, f...)
+							}
+						}
+						both(s, s.analyse(fmt.Sprintf("replace-by-forged-frame-len%d@%d", fl, i), d), 1)
+					}
+				}
+			}
+		}
 		// reflection: the accessory's own output fed back to it
 		if sh.advance == 0 {
 			acc, _ := crypto.NewSecureSessionFromSharedKey(s.secret)
